@@ -22,6 +22,8 @@ def import_rules(chk, fx):
     chk.rule('C20-R4', 'import cycles end the descent: the imported module is parsed / resolved only after `graph.inc_ref(&from_path, X)` succeeded, its Err edge returning a ResolveError')
     chk.rule('C20-R5', 'the module graph is acyclic by construction: a dependency edge is added (Node::push_dep / depends_on.insert of a new key) only in ModuleGraph::inc_ref, '
                        'after `referrer == depends_on` returned and `deep_depends_on(depends_on, referrer)` returned Err; the build loop relies on it to terminate')
+    chk.rule('C20-R7', 'every import of a module is registered: PackageBuilder::resolve and check_import accumulate the errors of their sub-scans and have no `?`, `return` or '
+                       '`break` that would skip the remaining chunks / arguments')
     chk.rule('C20-R6', 'each module is analysed once and every waiter is released: build_deps_and_module starts an analysis only with the entry it *removed* from self.asts, removes the '
                        'node from the graph in the same branch, and every way out of start_analysis_process registers a promise (insert / mark_as_joined / build_decl_mod) or is '
                        'the already-registered shortcut')
@@ -171,6 +173,38 @@ def import_rules(chk, fx):
             chk.bad('C20-R5', 'ModuleGraph::deep_depends_on_', 'transitive', 'deep_depends_on_ is no longer `direct dependency || some dependency reaches the target` '
                     '(recursive calls %d, under any(): %d, direct test: %d, joined by ||: %d): cycles longer than the test sees enter the graph'
                     % (len(rec), len(anys), len(direct), len(ors)), GR, dd['line'])
+    # --- R7: the import scan does not stop at the first error
+    for fname in ('GenericPackageBuilder::resolve', 'GenericPackageBuilder::check_import'):
+        f = fx.fn(BP, fname)
+        if not chk.need(f is not None, '%s not found' % fname):
+            continue
+        exits = []
+        for n in T.walk(f['body']):
+            if n.get('k') == 'Match' and n.get('src') == 'Try':
+                exits.append(('?', n))
+            elif n.get('k') == 'Ret':
+                exits.append(('return', n))
+            elif n.get('k') == 'Break':
+                exits.append(('break', n))
+        # the `break` of a desugared `for` (None arm of the iterator match) is not an early exit
+        desugar = set()
+        for n in T.walk(f['body']):
+            if n.get('k') == 'Match' and n.get('src') == 'ForLoopDesugar':
+                for a in n['arms']:
+                    if 'None' in [v.split('::')[-1] for v in T.pat_variants(a['pat'])]:
+                        for x in T.walk(a['b']):
+                            if x.get('k') == 'Break':
+                                desugar.add(id(x))
+        in_try = {id(x) for w, n in exits if w == '?' for x in T.walk(n) if x.get('k') == 'Ret'}
+        exits = [(w, n) for w, n in exits if id(n) not in desugar and id(n) not in in_try]
+        scans = [c for c in T.calls(f['body']) if c.get('k') == 'MCall' and c['n'] in ('check_import', 'register')]
+        chk.floor('import-scan calls in %s' % fname.split('::')[-1], len(scans), 1 if fname.endswith('resolve') else 15)
+        if exits:
+            for w, n in exits:
+                chk.bad('C20-R7', fname, 'early-exit:%s' % w, '%s leaves the scan of a module\'s imports with `%s`: the imports after the first failing one (an import that closes a cycle) '
+                        'are never registered, so their modules are not analysed and their public names are missing' % (fname.split('::')[-1], w), BP, n.get('l'))
+        else:
+            chk.ok('C20-R7', fname, sample='%s: %d scan calls, errors accumulated, no early exit' % (fname.split('::')[-1], len(scans)))
     # --- R6
     bd = fx.fn(BP, 'GenericPackageBuilder::build_deps_and_module')
     sap = fx.fn(BP, 'GenericPackageBuilder::start_analysis_process')
